@@ -926,7 +926,7 @@ class Pregex():
                 raise _ex.InvalidCapturingGroupNameException(name)
         if self.__type == _Type.Empty:
             return self
-        elif self.__type == _Type.Group:
+        elif self.__type == _Type.Group and not self.__pattern.startswith(('(?P=', '(?(')):
             if self.__pattern.startswith('(?:'):
                 # non-capturing group.
                 pattern = self.__pattern.replace('?:', '', 1)
@@ -966,7 +966,7 @@ class Pregex():
         '''
         if self.__type == _Type.Empty:
             return self
-        elif self.__type == _Type.Group:
+        elif self.__type == _Type.Group and not self.__pattern.startswith(('(?P=', '(?(')):
             if self.__pattern.startswith('(?P'):
                 # Remove name from named capturing group.
                 pattern = _re.sub('\(\?P<[^>]*>',
